@@ -35,7 +35,7 @@ def run(sc, tier, replay):
               "abstract": (["nodirid", "nofragdirs", "abstract", "biglists"], 0.25)}
     return fedcheck.run_fed_check(
         sc, tier, PID, ["C12"], "model_checking",
-        {"quick": (420, 12), "thorough": (6000, 25)},
+        {"quick": (420, 12), "thorough": (2600, 20)},     # the traces of one stratum are held in memory: 6000 x 25 needed 48 GB
         [("second-call-at-one-level", _extra_call), ("duplicate-lookup", _dup)],
         ["plan levels are taken from the plan the real planner produced (a planner that uses more levels is allowed more calls)",
          "a call = one Queryer.Query invocation on the gateway's queryer for that service (HTTP chunking by the batch size is C11's concern)"],
